@@ -212,16 +212,17 @@ loop:
 			}
 			spec.Q = 1.0
 			s = skipSpace(s)
-			if strings.HasPrefix(s, ";") {
+			for strings.HasPrefix(s, ";") {
 				s = skipSpace(s[1:])
-				for !strings.HasPrefix(s, "q=") && s != "" && !strings.HasPrefix(s, ",") {
-					s = skipSpace(s[1:])
-				}
 				if strings.HasPrefix(s, "q=") {
 					spec.Q, s = expectQuality(s[2:])
 					if spec.Q < 0.0 {
 						continue loop
 					}
+				}
+				// skip any other parameter, before or after q
+				for s != "" && !strings.HasPrefix(s, ";") && !strings.HasPrefix(s, ",") {
+					s = s[1:]
 				}
 			}
 
